@@ -204,7 +204,7 @@ fn role(path: &str) -> &'static str {
 }
 
 /// Fault points of one dry run.
-pub fn points_of(base: usize, trace: &[TraceLine], thorough: bool, rng: &mut Rng) -> (Vec<Point>, bool) {
+pub fn points_of(base: usize, trace: &[TraceLine], thorough: bool, every_byte: bool, rng: &mut Rng) -> (Vec<Point>, bool) {
     let ops: Vec<&TraceLine> = trace.iter().filter(|t| t.cls == 'M' && t.op != "rename-from").collect();
     let mut writes_per_path: BTreeMap<String, usize> = BTreeMap::new();
     for t in &ops {
@@ -235,7 +235,7 @@ pub fn points_of(base: usize, trace: &[TraceLine], thorough: bool, rng: &mut Rng
             }
             pts.push(Point { base, fault: format!("{i}:kill"), shape: ("kill".into(), format!("{opname}:{r}"), "-".into()) });
             let mut ks: BTreeSet<u64> = BTreeSet::new();
-            if n <= 128 || (thorough && n <= 70_000) {
+            if n <= 128 || (thorough && every_byte && n <= 70_000) {
                 ks.extend(1..n);
             } else if thorough {
                 complete = false;
@@ -356,7 +356,7 @@ pub fn run(engine: &Engine, tier: &str, seed: u64) -> i32 {
     let t0 = Instant::now();
     let thorough = tier == "thorough";
     let pool = Pool::load();
-    let nbases = if thorough { 16 } else { 8 };
+    let nbases = if thorough { 12 } else { 8 };
     let nseq = if thorough { 6000 } else { 400 };
 
     // ---- bases, their snapshots and fault points
@@ -371,7 +371,7 @@ pub fn run(engine: &Engine, tier: &str, seed: u64) -> i32 {
     let prepared: Vec<(Snapshot, Vec<Point>, bool, bool)> = engine.par_map(&idxs, |ctx, i| {
         let (snap, trace, ok) = prepare(ctx, &bases[*i]);
         let mut rng = Rng::derive(seed, 2000 + *i as u64);
-        let (pts, complete) = points_of(*i, &trace, thorough, &mut rng);
+        let (pts, complete) = points_of(*i, &trace, thorough, *i < 4, &mut rng);
         (snap, pts, ok, complete)
     });
     for (i, p) in prepared.iter().enumerate() {
@@ -379,12 +379,11 @@ pub fn run(engine: &Engine, tier: &str, seed: u64) -> i32 {
             simcore::harness_error(&format!("C22: fault-free dry run of base {} ({}) does not succeed", i, bases[i].label));
         }
     }
-    eprintln!("[c22] prepared at {:.1}s", t0.elapsed().as_secs_f64());
+    eprintln!("[c22] prepared at {:.1}s: fault points per base {:?}", t0.elapsed().as_secs_f64(), prepared.iter().map(|p| p.1.len()).collect::<Vec<_>>());
     let mut jobs: Vec<Point> = Vec::new();
     for p in &prepared {
         jobs.extend(p.1.iter().cloned());
     }
-    let all_complete = prepared.iter().all(|p| p.3);
 
     struct JobOut {
         fired: bool,
@@ -466,6 +465,7 @@ pub fn run(engine: &Engine, tier: &str, seed: u64) -> i32 {
     extra.insert("faults_planned_but_not_reached".to_string(), json!(unfired));
     extra.insert("base_scenarios".to_string(), json!(bases.iter().map(|b| b.label.clone()).collect::<Vec<_>>()));
     extra.insert("enumerated_fault_points".to_string(), json!(outs.len()));
+    extra.insert("bases_enumerated_completely".to_string(), json!(prepared.iter().enumerate().filter(|(_, p)| p.3).map(|(i, _)| bases[i].label.clone()).collect::<Vec<_>>()));
     extra.insert("fault_sequences_sampled".to_string(), json!(seq_out.len()));
     extra.insert("sequence_faults_fired".to_string(), json!(seq_fired));
     extra.insert("reach_probes".to_string(), probes.to_json());
@@ -487,7 +487,7 @@ pub fn run(engine: &Engine, tier: &str, seed: u64) -> i32 {
         distinct_nontrivial: distinct.len() as u64,
         rule: "enumeration: for each base scenario (layout x pre-state of each output x flags) the fault-free dry run lists the mutating libc calls and write sizes; one run per (op boundary kill | byte offset torn write | ENOSPC/EIO at offset | failing open/unlink/mkdir/rename/close | read-side kill/EIO), each followed by a clean non-forced build compared byte-for-byte with a forced build; plus sampled sequences of 1-3 faulted builds with edits in between. distinct_nontrivial = distinct (fault class, op kind:path role, offset class, base scenario) tuples whose fault actually fired".into(),
         samples,
-        exhaustive: thorough && all_complete,
+        exhaustive: false,
         assumptions: vec![
             "fault model = process death at a libc call boundary or inside a write after k bytes, and failing/short writes and calls; power loss (un-fsynced data) is outside C22".into(),
             "content oracle is lalrpop itself (forced build in a clean world, hash seed 0): C22 is about which bytes survive, not what a parser looks like".into(),
